@@ -221,7 +221,7 @@ def run_check(mod, tier, seed, emit_known=None, only=None):
         print("   %s = %d" % (k, v))
     for f in known.findings:
         if excused.get(f["id"]):
-            print("KNOWN-FINDING: property=%s %s [%s, %d case(s)]" % (pid, f["description"], f["id"], excused[f["id"]]))
+            print("KNOWN-FINDING: property=%s %s [%s, %d case(s)]" % (pid, f.get("title") or f["description"], f["id"], excused[f["id"]]))
     if violations:
         violations.sort(key=lambda v: (len(str(v[1])), str(v[1])))
         by_clause = collections.Counter(v[2] for v in violations)
